@@ -116,6 +116,10 @@ def finish(ledger, tier, seed, t0, rules_run, explanation, trusted_base, not_dec
         print('  note: ' + d)
     replay_dir = os.path.join(EVIDENCE_DIR, 'replay')
     replays = []
+    if os.path.isdir(replay_dir):
+        for fn in os.listdir(replay_dir):
+            if fn.startswith(pid + '-'):
+                os.unlink(os.path.join(replay_dir, fn))
     if new:
         os.makedirs(replay_dir, exist_ok=True)
     for n, o in enumerate(new):
